@@ -125,7 +125,8 @@ def controlled_env(hashseed=0, extra=None):
     env["PYTHONPYCACHEPREFIX"] = pyc_prefix()
     env[GUARD] = "1"
     env["VERIF_ENV_OK"] = "1"
-    env["PYTHONPATH"] = VERIF
+    env["PYTHONPATH"] = VERIF + os.pathsep + os.path.join(REPO, "src")
+    env["VERIF_REPO"] = REPO
     env.pop("BASILISP_USE_DEV_LOGGER", None)
     if extra:
         env.update(extra)
